@@ -23,10 +23,15 @@ func newModEngine(w *World, follow func(*ssa.Function) bool) *modEngine {
 }
 
 func (m *modEngine) mutatesParam(fn *ssa.Function, idx int) (bool, string) {
+	return m.mutatesParamSpec(fn, idx, "")
+}
+
+// mutatesParamSpec: as mutatesParam, specialised on constant bool arguments (branches on those parameters are pruned).
+func (m *modEngine) mutatesParamSpec(fn *ssa.Function, idx int, spec string) (bool, string) {
 	if fn == nil || fn.Blocks == nil || idx >= len(fn.Params) {
 		return false, ""
 	}
-	key := fn.String() + "#" + itoa(idx)
+	key := fn.String() + "#" + itoa(idx) + "#" + spec
 	if v, ok := m.memo[key]; ok {
 		return v == 1, ""
 	}
@@ -34,8 +39,9 @@ func (m *modEngine) mutatesParam(fn *ssa.Function, idx int) (bool, string) {
 	p := fn.Params[idx]
 	derived := func(v ssa.Value) bool { return rootsAtDeep(v, p, 0) }
 	res, why := false, ""
+	live := blocksReachable(fn, newLocksetEngine(m.w, nil).pruner(fn, spec))
 	allInstrs(fn, func(in ssa.Instruction) {
-		if res {
+		if res || !live[in.Block()] {
 			return
 		}
 		switch x := in.(type) {
@@ -78,7 +84,7 @@ func (m *modEngine) mutatesParam(fn *ssa.Function, idx int) (bool, string) {
 					if m.follow != nil && !m.follow(f) {
 						continue
 					}
-					if ok, w2 := m.mutatesParam(f, ai); ok {
+					if ok, w2 := m.mutatesParamSpec(f, ai, specOf(c, f)); ok {
 						res, why = true, "passed to "+fname(f)+" ("+w2+") at "+m.w.PosOf(in)
 					}
 				}
